@@ -79,6 +79,9 @@ def r_layout(ctx) -> RuleResult:
             continue
         seen.add(key)
         kinds.add(e["what"])
+        if e["asc"] is None:
+            from ..model import short as _short
+            raise AnalysisError(f"R-LAYOUT: `{_short(node, 70)}` in {fi.qualname} emits {e['what']} from a sequence sorted with a key the analysis does not read: its order is not known")
         ok = bool(e["asc"]) and (e["pair_asc"] is not False if e["what"] == "edges" else True) and (e["pair_asc"] is True if e["what"] == "edges" else True)
         from ..model import short, norm
         res.inst(fi.fq, f"{e['what']} emitted by `{short(node, 70)}`", "ok" if ok else "fail",
